@@ -116,7 +116,11 @@ pub fn run_intruder(plan: world::IntruderPlan) {
     disk.files.retain(|k, _| !k.starts_with("<orphan:"));
     let env = RunEnv {
         disk: Some(disk),
-        crash: None,
+        crash: plan.kill_at.map(|at| world::CrashPlan {
+            at,
+            kind: world::CrashKind::Kill,
+            salt: plan.at ^ 0x6b69_6c6c,
+        }),
         intruder: None,
         inodes: Some(outer.inodes.clone()),
         disk_full: outer.write_faulted,
@@ -891,7 +895,16 @@ pub fn session_steps(seed: u64, gen: Gen, image: &FsImage, i: u64, m0: u64) -> (
                 gen_id: if g2 == Gen::Layout { 0 } else { 1 },
                 mode: if rng.chance(1, 3) { replay_mode(&[]) } else { random_mode(seed, g2, base | (1 << 39) | j as u64) },
                 at: rng.below(m0 + 1),
+                // (round 17) half of the second instances are killed half-way (or are simply still
+                // at work when the first one goes on): the first instance then meets what a
+                // *running* peer has on disk, not only what a finished one leaves
+                kill_at: None,
             });
+            if let Some(p) = st.intruder.as_mut() {
+                if rng.chance(1, 2) {
+                    p.kill_at = Some(rng.below(m0 + 2));
+                }
+            }
         }
     }
     (steps, mtime_seed)
@@ -915,7 +928,8 @@ pub fn judge_session_with(s: &SessionResult, drifted: &[bool], comp: &BTreeMap<S
     let mut company: Vec<Violation> = vec![];
     for (i, r) in s.runs.iter().enumerate() {
         let Some(r2) = &r.intruder else { continue };
-        if drifted.get(i).copied().unwrap_or(false) || r2.panic.is_some() {
+        if drifted.get(i).copied().unwrap_or(false) || r2.panic.is_some() || r2.crashed.is_some() {
+            // (a second instance that was killed half-way printed nothing that could be judged)
             continue;
         }
         let mut g2 = vec![];
@@ -957,7 +971,7 @@ pub fn judge_session_with(s: &SessionResult, drifted: &[bool], comp: &BTreeMap<S
 
 /// Explicit form of the steps of an executed session (each run's recorded schedule).
 /// (generator id, schedule, file-system mutation before which it starts)
-pub type ExplicitIntruder = (u8, Vec<Decision>, u64);
+pub type ExplicitIntruder = (u8, Vec<Decision>, u64, Option<u64>);
 pub type ExplicitStep = (Vec<Decision>, Option<world::CrashPlan>, i64, Vec<world::Drift>, Option<ExplicitIntruder>);
 
 pub fn explicit_steps(steps: &[Step], res: &SessionResult) -> Vec<ExplicitStep> {
@@ -966,7 +980,7 @@ pub fn explicit_steps(steps: &[Step], res: &SessionResult) -> Vec<ExplicitStep> 
         .zip(res.runs.iter())
         .map(|(st, r)| {
             let company = match (&st.intruder, &r.intruder) {
-                (Some(p), Some(r2)) => Some((p.gen_id, r2.trace.clone(), p.at)),
+                (Some(p), Some(r2)) => Some((p.gen_id, r2.trace.clone(), p.at, p.kill_at)),
                 _ => None, // planned but never started (the run had fewer mutations)
             };
             (r.trace.clone(), st.crash, st.gap_ns, st.drift.clone(), company)
@@ -981,10 +995,11 @@ pub fn steps_from_explicit(e: &[ExplicitStep]) -> Vec<Step> {
             crash: *crash,
             gap_ns: *gap,
             drift: drift.clone(),
-            intruder: company.as_ref().map(|(g, sc, at)| world::IntruderPlan {
+            intruder: company.as_ref().map(|(g, sc, at, kill_at)| world::IntruderPlan {
                 gen_id: *g,
                 mode: replay_mode(sc),
                 at: *at,
+                kill_at: *kill_at,
             }),
         })
         .collect()
@@ -1034,13 +1049,23 @@ pub fn minimise_session(
             cur = cand;
         }
     }
-    // no company where none is needed
+    // no company where none is needed; company that runs to completion where that is enough
     for i in 0..cur.len() {
         if cur[i].4.is_some() {
             let mut cand = cur.clone();
             cand[i].4 = None;
             if fails(&cand) {
                 cur = cand;
+                continue;
+            }
+            if matches!(&cur[i].4, Some((_, _, _, Some(_)))) {
+                let mut cand = cur.clone();
+                if let Some(c) = cand[i].4.as_mut() {
+                    c.3 = None;
+                }
+                if fails(&cand) {
+                    cur = cand;
+                }
             }
         }
     }
